@@ -98,6 +98,17 @@ func c13Pass(r *core.Rand, jitter bool) []c13Stmt {
 		add("create", fmt.Sprintf("CREATE TABLE e%d (k INT, s VARCHAR(20))", i), "dirty2")
 	}
 	add("insert", "INSERT INTO e4 VALUES (1, 'x')", "")
+	// a table grown past the split of its internal root (the 1165th row): the
+	// statement in which the tree gets its third level
+	for from := 0; from < 1250; from += 250 {
+		add("insert_multi", "INSERT INTO e5 VALUES "+func() string {
+			var p []string
+			for i := from; i < from+250; i++ {
+				p = append(p, fmt.Sprintf("(%d, 'r%d')", i, i))
+			}
+			return strings.Join(p, ", ")
+		}(), "")
+	}
 	return out
 }
 
@@ -205,7 +216,7 @@ func parseRaceLogs(dir string) []raceReport {
 }
 
 func checkC13(c *core.Ctx) []core.Floor {
-	c.Rule = "one session goroutine against the REAL 100 ms flush goroutine. Each pass executes every statement kind {CREATE TABLE, INSERT single, INSERT multi-row (splitting; also 300 rows), UPDATE and DELETE (also over 300 rows), SELECT scan, SELECT join} with placements {idle gap > 1 tick before and after, park of > 2 ticks at the statement's 2nd page change, park of > 2 ticks inside the log append, SELECT: park at a cache miss}, on fresh pages and after a reload (cold cache); eight tables are created in one database, each CREATE held open, so that the CREATE whose catalog row splits the catalog root is among them. (a) -race build: handlers only sleep on the session goroutine and add no synchronisation; every data-race report with mkdb frames is a violation (happens-before reasoning, independent of the observed timing). (b) plain build (once as is, once with every page write of a flush slowed down to 15 ms by a sleep in the write hook): every hook event is logged with its goroutine id; offline checker: no page or header write by ANY goroutine between a statement's first page change and the completion of its log append (CREATE TABLE: its last page change); the same checker runs over passes with a page cache of 10-24 pages and statements that dirty hundreds of pages (the statement may be refused with 'cache is full', but must not push its own half-done pages to the data file). Distinct = (pass, statement, placement); non-trivial = the statement was actually held open (parked) across more than two timer periods."
+	c.Rule = "one session goroutine against the REAL 100 ms flush goroutine. Each pass executes every statement kind {CREATE TABLE, INSERT single, INSERT multi-row (splitting; also 300 rows; a table grown to 1250 rows in five statements, through the split of its internal root), UPDATE and DELETE (also over 300 rows), SELECT scan, SELECT join} with placements {idle gap > 1 tick before and after, park of > 2 ticks at the statement's 2nd page change, park of > 2 ticks inside the log append, SELECT: park at a cache miss}, on fresh pages and after a reload (cold cache); eight tables are created in one database, each CREATE held open, so that the CREATE whose catalog row splits the catalog root is among them. (a) -race build: handlers only sleep on the session goroutine and add no synchronisation; every data-race report with mkdb frames is a violation (happens-before reasoning, independent of the observed timing). (b) plain build (once as is, once with every page write of a flush slowed down to 15 ms by a sleep in the write hook): every hook event is logged with its goroutine id; offline checker: no page or header write by ANY goroutine between a statement's first page change and the completion of its log append (CREATE TABLE: its last page change); the same checker runs over passes with a page cache of 10-24 pages and statements that dirty hundreds of pages (the statement may be refused with 'cache is full', but must not push its own half-done pages to the data file). Distinct = (pass, statement, placement); non-trivial = the statement was actually held open (parked) across more than two timer periods."
 	c.Assume = []string{"a park of 230-400 ms spans at least two 100 ms ticks", "handlers of the race build run on the session goroutine only and share nothing with the flusher"}
 	passes := 2
 	if !core.Quick(c) {
